@@ -152,6 +152,12 @@ def showSigIdx (v : Vaa) : String := ",".intercalate (v.sigs.map fun s => toStri
 /-- The extra verdict for clause `gate-accepts-invalid-signature-list` (owned by C19, also reported by C06 for its anchor
 vaa_gossip_consumer.go). -/
 def gateVerdict (id how : String) (recover : Bytes → Option Addr) (v : Vaa) (named : Option (List Addr)) : List String :=
+  -- C07 (anchor vaa_gossip_consumer.go): the explorer's threshold is the node's and the contracts' floor(2n/3)+1
+  (match named with
+   | some a => if a.length > 0 ∧ v.sigs.length < quorum a.length then
+       [s!"spec {id} explorer-accepts-below-quorum {how}: accepted with {v.sigs.length} signature(s) for a set of {a.length} keys, floor(2n/3)+1 = {quorum a.length}"]
+     else []
+   | none => []) ++
   if sigListOkB recover v named then [] else
   [s!"spec {id} gate-accepts-invalid-signature-list {how}: the explorer's verification gate accepted a signature list that VerifySignatures against the named set rejects - {v.sigs.length} signature(s) with indexes [{showSigIdx v}] against {(named.map List.length).getD 0} key(s) (quorum {quorum ((named.map List.length).getD 0)})"]
 
